@@ -14,6 +14,7 @@ fn main() {
     let engine = std::env::args().nth(1).unwrap_or_default();
     let f: fn(&serde_json::Value) -> serde_json::Value = match engine.as_str() {
         "retryopts" => engines::retryopts::run,
+        "exit" => engines::exit::run,
         "filter" => engines::filter::run,
         "attempt" => engines::attempt::run,
         "glue" => engines::zoo::run,
